@@ -30,7 +30,7 @@ def main():
                 if rc == 1 or rc > 2:
                     break
         finally:
-            sh("git -C /repo checkout -- .")
+            sh("git -C /repo checkout -- . && git -C /repo clean -fdq")
         meta = json.load(open(f"{d}/meta.json"))
         meta["final_check"] = {"against": "/repo working tree with the patch applied (undone afterwards)", "harness_commit": subprocess.run("git -C /verif rev-parse --short HEAD", shell=True, capture_output=True, text=True).stdout.strip(), **res}
         json.dump(meta, open(f"{d}/meta.json", "w"), indent=1, ensure_ascii=False)
